@@ -138,7 +138,10 @@ def c07(case, diff, o, v):
         # (the nested run is the legacy analyzer: the comment has to be glued to a word character, as under KF-30c)
         if _feat(case)["select_has_subquery"] and _re.search(r"[\w\"'`\]]/\*|\*/[\w\"'`\[]", txt):
             return "KF-13"
-    if case.get("dialect") != "non-validating" and kinds & {"hash", "ins_hash"} and (diff == ["column_pairs"] or (diff is None and v.get("outcome") == "SQLLineageException")):
+    if kinds & {"hash_glued"} and _re.search(r"#[^\s#][^\n]*;", txt) and ((diff is None and v.get("outcome") in ("InvalidSyntaxException", "UnsupportedStatementException")) or (diff is not None and v.get("n_statements") != o.get("n_statements"))):
+        # KF-31b: the statement splitter is sqlparse's; a ';' inside a '#x...' comment (no blank after the hash) is a statement end to it
+        return "KF-31b"
+    if case.get("dialect") != "non-validating" and kinds & {"hash_glued"} and (diff == ["column_pairs"] or (diff is None and v.get("outcome") == "SQLLineageException")):
         # KF-13 once more: sqlparse's lexer knows '# ' (hash and a blank) as a line comment but not '#c'; the dialect's own lexer takes both, so a
         # glued hash comment inside a select-item sub-query reaches the nested legacy run as tokens (phantom column, or 'An Identifier is expected')
         if _feat(case)["select_has_subquery"] and _re.search(r"#[^\s#]", txt):
